@@ -43,6 +43,9 @@ RULE = ("cases = (alphabet, reference string, k, insertion, deletion, substituti
         "is smaller than the reference length + 2; distinct = distinct argument tuples")
 ASSUMPTIONS = [
     "input_symbols is a set of single characters; the reference string is a str; max_edit_distance is an int",
+    "the property is about arguments, so no result may depend on earlier constructions: the failure that is printed is "
+    "re-run in a fresh interpreter and, if it holds there, recorded earlier edit_distance calls of the run are put in "
+    "front of it (harness/fresh.py)",
     "the language clause is about reference strings over the alphabet; for any other reference string (k ≥ 0, some kind "
     "enabled) the constructor raises InvalidSymbolError — theorem C16_ref_outside_alphabet, modelled, compared and "
     "evaluated on the real code",
